@@ -197,8 +197,8 @@ End Decoder.
    it is `true` for the pinned tree and becomes `false` with the repair. *)
 Definition BCodec_lenient_colon : bool := false.
 (* Repair flags of src/metainfo.rs, pinned by the correspondence in the same way. *)
-Definition Metainfo_reject_zero_piece_length : bool := false.
-Definition Metainfo_reject_total_overflow : bool := false.
+Definition Metainfo_reject_zero_piece_length : bool := true.
+Definition Metainfo_reject_total_overflow : bool := true.
 Definition decode (s : bytes) : result (list bvalue) := decode_with true BCodec_lenient_colon s.
 
 (* ---- encoder --------------------------------------------------------------- *)
